@@ -10,6 +10,7 @@ package proxy
 
 import (
 	"fmt"
+	"net/url"
 	"strings"
 	"testing"
 
@@ -120,6 +121,14 @@ func c13NormPath(p string) string {
 	return b.String()
 }
 
+func c13Decoded(uri string) string {
+	p, q, _ := strings.Cut(uri, "?")
+	if d, err := url.PathUnescape(p); err == nil {
+		p = d
+	}
+	return p + "?" + q
+}
+
 // c13SplitURL splits an absolute URL without interpreting it.
 func c13SplitURL(s string) (scheme, host, path, query string, hasQuery bool) {
 	scheme, rest, ok := strings.Cut(s, "://")
@@ -218,7 +227,8 @@ func c13Exec(w *cvxWorld, j *cvxJob) bool {
 		if len(cs.Up.Query) > 0 {
 			wantURI += "?" + cvxQuery(cs.Up.Query)
 		}
-		if c13NormPath(seen.RequestURI) != c13NormPath(wantURI) {
+		// how faithfully an ordinary route passes the path on is C07's subject: compared decoded
+		if g, w := c13Decoded(seen.RequestURI), c13Decoded(wantURI); g != w {
 			fail(clause, "upstream saw request target %q, want %q", seen.RequestURI, wantURI)
 		}
 		return true
